@@ -662,6 +662,8 @@ void cmi_process_cancel_awaiteds(struct cmb_process *pp)
  * wakeup_event_interrupt - The event that actually interrupts the
  * process coroutine after being scheduled by cmb_process_interrupt.
  */
+static void wakeup_event_preempted(void *vp, void *arg);
+
 static void wakeup_event_interrupt(void *vp, void *arg)
 {
     cmb_assert_debug(vp != NULL);
@@ -672,12 +674,48 @@ static void wakeup_event_interrupt(void *vp, void *arg)
     cmb_logger_info(stdout, "Interrupts %s signal %" PRIi64,
                     tgt->name, (int64_t)arg);
 
+    /*
+     * A preemption notice still on its way to the target (this interrupt has
+     * overtaken it) must not be lost in the clean-up below: the target has been
+     * robbed and has to be told. Send it again afterwards.
+     */
+    const uint64_t notices = cmb_event_pattern_count(wakeup_event_preempted,
+                                                     tgt, CMB_ANY_OBJECT);
+
     /* Interrupt it from whatever it is doing or waiting for */
     cmi_process_cancel_awaiteds(tgt);
+
+    if (notices > 0u) {
+        cmi_process_preempt_notice(tgt);
+    }
 
     struct cmi_coroutine *cp = (struct cmi_coroutine *)tgt;
     cmb_assert_debug(cp->status == CMI_COROUTINE_RUNNING);
     (void)cmi_coroutine_resume(cp, arg);
+}
+
+/*
+ * wakeup_event_preempted - The interrupt that tells a process that a resource
+ * pool has taken its units away. An event function of its own, so that a
+ * pending notice can be told from the other interrupts pending for the process.
+ */
+static void wakeup_event_preempted(void *vp, void *arg)
+{
+    wakeup_event_interrupt(vp, arg);
+}
+
+/*
+ * cmi_process_preempt_notice - Schedule the preemption notice for a process at
+ * the current time with the priority of that process.
+ */
+void cmi_process_preempt_notice(struct cmb_process *pp)
+{
+    cmb_assert_debug(pp != NULL);
+    cmb_logger_info(stdout, "Preemption notice for %s", pp->name);
+
+    (void)cmb_event_schedule(wakeup_event_preempted, pp,
+                             (void *)CMB_PROCESS_PREEMPTED,
+                             cmb_time(), pp->priority);
 }
 
 /*
